@@ -34,13 +34,15 @@ def _scenario(draw, tier):
     ops = []
     for _ in range(draw(st.integers(1, 8))):
         if kind in ("gibbs", "metropolis"):
-            k = draw(st.sampled_from(["steps", "steps", "set_bounds", "set_bounds", "nonneg_on", "nonneg_off", "remove"]))
+            k = draw(st.sampled_from(["steps", "steps", "set_bounds", "set_bounds", "nonneg_on", "nonneg_off", "remove", "bad_bounds"]))
             i = draw(st.integers(0, cfg["d"] - 1))
             if k == "steps":
                 ops.append(["advance", draw(st.sampled_from([1, 2, 5, 15]))])
             elif k == "set_bounds":
                 ops.append(["set_bounds", i, draw(st.sampled_from([1e-6, 1e-3, 0.5, 1.0, 7.0, 1e4])),
                             draw(st.sampled_from([0.0, 0.3, 0.5, 0.99, 1.0]))])
+            elif k == "bad_bounds":
+                ops.append(["bad_bounds", i, draw(st.sampled_from([0.0, 0.5, 3.0, 1e4]))])
             elif k == "nonneg_on":
                 ops.append(["set_nonneg", i, True])
             elif k == "nonneg_off":
@@ -326,6 +328,13 @@ def execute(sc):
                         continue
                     lib_call("set_boundaries", h.chain.set_boundaries, i, (lo, hi))
                     L.bounds[i] = (lo, hi)
+                    stats["limit_calls"] += 1
+                elif name == "bad_bounds":
+                    # a call with lower >= upper is rejected with a warning: the limits in force must stay in force
+                    i = op[1]
+                    cur = float(np.asarray(h.chain.get_parameter(i, burn=0))[-1])
+                    lib_call("set_boundaries(rejected)", h.chain.set_boundaries, i, (cur + op[2], cur - op[2]))
+                    stats["fault_rejected_limit_call"] += 1
                     stats["limit_calls"] += 1
                 elif name == "set_nonneg":
                     i, flag = op[1], op[2]
